@@ -30,14 +30,36 @@ pub struct Plan {
     /// the hard I/O error is transient: it is returned once, after which the source delivers the rest
     /// (what `std::io::BufReader` over a timed-out socket does)
     pub io_once: bool,
+    /// interleaving point: at this fill_buf call (0-based) the reader parks its thread until the simulator has run
+    /// the next replica to completion - two parses are then in flight in the process at the same time, the
+    /// parked one stopped at a chosen place inside its document
+    pub park_at: Option<usize>,
+}
+
+thread_local! {
+    /// (tell the simulator "I am parked", wait for "go on"); installed by the session runner for a parking replica
+    pub static PARK: std::cell::RefCell<Option<(std::sync::mpsc::Sender<()>, std::sync::mpsc::Receiver<()>)>> = const { std::cell::RefCell::new(None) };
+}
+
+fn park_here() -> bool {
+    PARK.with(|p| {
+        if let Some((tx, rx)) = p.borrow_mut().take() {
+            // one park per replica: the channel pair is consumed
+            let _ = tx.send(());
+            let _ = rx.recv();
+            true
+        } else {
+            false
+        }
+    })
 }
 
 impl Plan {
     pub fn slice() -> Plan {
-        Plan { cuts: vec![], eintr: vec![], fault: Fault::None, bufreader_cap: 0, slice: true, io_once: false }
+        Plan { cuts: vec![], eintr: vec![], fault: Fault::None, bufreader_cap: 0, slice: true, io_once: false, park_at: None }
     }
     pub fn whole() -> Plan {
-        Plan { cuts: vec![], eintr: vec![], fault: Fault::None, bufreader_cap: 0, slice: false, io_once: false }
+        Plan { cuts: vec![], eintr: vec![], fault: Fault::None, bufreader_cap: 0, slice: false, io_once: false, park_at: None }
     }
     pub fn is_trivial(&self) -> bool {
         self.slice || (self.cuts.is_empty() && self.eintr.is_empty() && self.fault == Fault::None && self.bufreader_cap == 0)
@@ -58,6 +80,9 @@ impl Plan {
         if self.io_once {
             o.put("io_once", J::Bool(true));
         }
+        if let Some(k) = self.park_at {
+            o.put("park_at", J::Int(k as i64));
+        }
         o
     }
     pub fn from_j(j: &J) -> Result<Plan, String> {
@@ -77,6 +102,7 @@ impl Plan {
         }
         p.bufreader_cap = j.int_of("bufreader_cap")? as usize;
         p.io_once = matches!(j.get("io_once"), Some(J::Bool(true)));
+        p.park_at = j.int_of("park_at").ok().map(|k| k as usize);
         Ok(p)
     }
 
@@ -193,6 +219,7 @@ pub struct ReadStats {
     pub truncated: u64,
     pub chunks: u64,
     pub eof_polls: u64,
+    pub parked: u64,
 }
 
 pub struct SimReader<'a> {
@@ -238,6 +265,9 @@ impl<'a> BufRead for SimReader<'a> {
         self.stats.fill_calls += 1;
         if self.calls > self.budget {
             panic!("{}", BUDGET_MARK);
+        }
+        if self.plan.park_at == Some(idx) && park_here() {
+            self.stats.parked += 1;
         }
         if self.plan.eintr.contains(&idx) {
             self.stats.eintr_fired += 1;
